@@ -2,6 +2,8 @@
 
 package simrt
 
+import "unsafe"
+
 // RaceEnabled reports whether the binary was built with -race.
 const RaceEnabled = false
 
@@ -10,3 +12,6 @@ func raceEnable()  {}
 
 // RaceErrors is always 0 without -race.
 func RaceErrors() int { return 0 }
+
+func raceAcquire(p unsafe.Pointer) {}
+func raceRelease(p unsafe.Pointer) {}
